@@ -47,4 +47,108 @@ def tasks(prop, tier, modules=None):
             continue
         for cfg in _configs(m, tier):
             out[f"{m.ENV}@{cfg}"] = (run_env, {"module": mod, "cfg": cfg})
+    if prop in GENPOST_PROPS and modules is None:
+        # the reset obligations of these properties ASSUME the generator's post-condition: discharge it on the real generator in the same check
+        out.update(genpost_tasks(prop, tier))
     return out
+
+
+import jax
+import jax.numpy as jnp
+import numpy as np
+
+from contracts import common as K
+
+KEY0 = jax.random.PRNGKey(0)
+
+
+def _fresh():
+    """see checks/C10.py: every switch between stub-traced proofs and native runs starts from empty jaxpr caches"""
+    jax.clear_caches()
+
+
+def _prove(ctx, *a, **kw):
+    _fresh()
+    try:
+        return ctx.prove(*a, **kw)
+    finally:
+        _fresh()
+
+
+# ======================================================================================================================
+# the generator ESTABLISHES the precondition that the environment contracts ASSUME at reset
+# ======================================================================================================================
+# contracts/<env>.py prove `reset` with the generator replaced by a contract boundary: the generator's output is a symbolic state constrained by a
+# predicate `gen_post` (the `requires` of that reset problem).  That predicate is an ASSUMED contract on a callee unless it is discharged on the real
+# generator - which is done here, with the very same predicate object: symbolically (all keys = all sampler outcomes) where the generator is within the
+# engine's reach, and as a bounded native stand-in (labelled) on real keys for every module.
+GENPOST_PROPS = ("C01", "C04", "C06", "C07", "C12")   # properties whose reset clauses (bounds, mask, feasibility, consistency, views) rest on it
+GENPOST = {  # module -> (symbolic?, extra ctx.prove options)
+    "bin_pack": (False, {}), "cleaner": (False, {}), "connector": (True, {}), "flat_pack": (True, {}), "lbf": (True, {}), "maze": (False, {}),
+    "mmst": (False, {}), "robot_warehouse": (True, {}), "rubiks_cube": (True, {}), "sliding_tile": (True, {}), "sokoban": (True, {}), "sudoku": (True, {}),
+}
+
+
+def _boundary_problems(module, cfg, tier):
+    m = importlib.import_module("contracts." + module)
+    env = _configs(m, tier)[cfg]()
+    gen = getattr(env, "generator", None) or getattr(env, "_generator")
+    ps = [p for p in m.problems(env, cfg, tier) if "generator replaced by its post-condition" in (p.get("note") or "")]
+    return m, env, gen, ps
+
+
+def run_genpost(ctx, module, cfg, nkeys, symbolic):
+    _fresh()
+    m, env, gen, ps = _boundary_problems(module, cfg, ctx.tier)
+    name = f"{m.ENV}.{type(gen).__name__}@{cfg}"
+    ctx.structural(f"{name}/{ctx.prop}.a_reset_precondition_is_stated_for_this_generator", len(ps) >= 1, "contract inventory",
+                   detail={"reset problems with a generator boundary": [p["title"] for p in ps]})
+    tgt = [type(gen).__call__]
+    for p in ps:
+        req = p["requires"]
+        # bounded stand-in on real keys (every module)
+        keys = jax.vmap(jax.random.PRNGKey)(jnp.arange(nkeys))
+        vals = jax.jit(jax.vmap(lambda k: {kk: jnp.all(jnp.asarray(v)) for kk, v in req(gen(k), k).items()}))(keys)
+        bad = {kk: [int(i) for i in np.nonzero(~np.asarray(v))[0][:5]] for kk, v in vals.items() if not bool(np.all(np.asarray(v)))}
+        ctx.bounded_check(f"{name}/{ctx.prop}.generator_establishes_the_assumed_reset_precondition", nkeys, len(bad), f"native run on PRNGKey(0..{nkeys - 1})",
+                          {"failing conjunct -> first failing keys": bad} if bad else None)
+        _fresh()
+        if module == "bin_pack":
+            # symbolic, all keys: RandomGenerator.__call__ with the splitting LOOP as a contract boundary - it returns symbolic item spaces and mask
+            # constrained by the loop invariant, whose preservation by the loop body is the obligation `split_step` (for the same max_num_items)
+            # and whose base case is `splitting_starts_from_the_container_as_the_only_item`
+            from jumanji.environments.packing.bin_pack.generator import RandomGenerator as BG
+            from jumanji.environments.packing.bin_pack.space import Space
+            NI = gen.max_num_items
+            from contracts.bin_pack import split_loop_inv
+            linv = split_loop_inv(NI, gen.container_dims)
+            F6 = ("x1", "x2", "y1", "y2", "z1", "z2")
+
+            def breq(key, sp, mk):
+                return {**linv(sp, mk), "at_least_one_item": jnp.any(mk)}
+
+            def bens(key, sp, mk, _req=req):
+                with K.with_attr(gen, "_split_container_into_items_spaces", lambda container, k: (Space(**sp.__dict__), mk)):
+                    g = gen(key)
+                return {**{ctx.prop + ".reset_precondition." + kk: v for kk, v in _req(g, key).items()}, "canary.first_item_is_valid": g.items_mask[0]}
+
+            sp0 = Space(**{k: jnp.zeros((NI,), jnp.int32) for k in F6})
+            _prove(ctx, f"{name}.establishes_reset_precondition(splitting loop as boundary)", (KEY0, sp0, jnp.zeros((NI,), bool)), bens, breq,
+                   targets=[BG.__call__, BG._generate_solved_instance, BG._unpack_items], merge_over=16)
+        if symbolic:
+            def ens(key, _req=req):
+                return {ctx.prop + ".reset_precondition." + kk: v for kk, v in _req(gen(key), key).items()}
+            _prove(ctx, f"{name}.establishes_reset_precondition", (KEY0,), ens, targets=tgt, merge_over=16, **GENPOST[module][1])
+
+
+def genpost_tasks(prop, tier):
+    out = {}
+    for module, (symbolic, _) in GENPOST.items():
+        m = importlib.import_module("contracts." + module)
+        if hasattr(m, "PROPS") and prop not in m.PROPS and prop != "C10":
+            continue
+        for cfg in _configs(m, tier):
+            out[f"genpost:{m.ENV}@{cfg}"] = (run_genpost, {"module": module, "cfg": cfg, "nkeys": 64 if tier == "quick" else 512, "symbolic": symbolic})
+    return out
+
+
